@@ -27,7 +27,8 @@ MANIFEST = {
         "technique": ("Lean 4 proof over a micro-step transition-system model of Future / ThreadPool / LockFreeQueue / FastSignal / Signal "
                       "(all schedules, any number of client and worker threads, any queue capacity) + controlled-scheduler correspondence: the unmodified "
                       "src/Future.cpp, Signal.cpp, Thread.cpp, Mutex.cpp run over a simulated POSIX layer in which every atomic operation and pthread call is a "
-                      "scheduling point; each trace is replayed step by step on the compiled Lean model"),
+                      "scheduling point; each trace is replayed step by step on the compiled Lean model; + tie by translation (round 7): tools/gen_future.py re-translates push / pop / size / FastSignal / the constructors / "
+                      "the conditions of run() / the Future<void> members, Future<void>::set, the Future<A> conversion and the order of proc from the CURRENT Future.cpp and Future.hpp on every run, and PropsGen.lean proves translated body = model step"),
         "text": ("Theorems (Props.lean, axiom-audited on every run): the lock-free ring is FIFO / hands every ticket over at most once for every capacity and thread count "
                  "(closed ring system and, by a proved simulation, the queue inside the full pool model); a worker never reads a raw slot; exactly-once / argument integrity / record lifetime (no fault) / token conservation and the "
                  "completion handshake (join after completion, result, flags, future destroyed only when unused) over all schedules of the full model; deadlock freedom (`no_stuck`) and the liveness clause `join_eventually` (every weakly fair run terminates with all joins returned and every call executed exactly once) of the repaired "
@@ -43,13 +44,24 @@ MANIFEST = {
                  "(private ThreadPool built with queue sizes 1/2/4/8 and thread limits by #including Future.cpp) is run under deviation-bounded exhaustive and random schedules; "
                  "the Lean model replays every scheduler step and must predict the same enabled set, operation, object, returned value and events; an independent Python "
                  "reference checks exactly-once, arguments, join-after-completion, result, flags after join, record freed once, no POSIX misuse, no deadlock on the "
-                 "implementation's own trace."),
-        "note": ("Modelled, not verified: the hand translation of the C++ into the model (validated by the step-by-step replay, not proved); sequentially consistent atomics; the "
+                 "implementation's own trace.  Round 7, tie by TRANSLATION (tools/gen_future.py -> lean/Nstd/Generated/FutureBody.lean, regenerated from the current src/Future.cpp and include/nstd/Future.hpp on every run; "
+                 "a shape outside the understood C++ subset is refused = broken tie; PropsGen.lean): `push_body_is_ringStep` / `pop_body_is_ringStep` (the translated bodies of LockFreeQueue::push/pop simulate the model's ringStep micro-step by micro-step: "
+                 "same next program counter, locals, result and ring up to the ghost logs, for every ring whose capacity is a power of two, which `pool_ring_capacity_is_a_power_of_two` shows for every reachable state), "
+                 "`fastsignal_set/reset/reset_recheck/wait_is_translated` (the four FastSignal frames of the model are the translated bodies), `queue_ctor_is_ring_init`, `queue_ctor_capacity_is_ceilPow2` (the constructor's bit smearing = ceilPow2 for every size 1..2^32), "
+                 "`pool_ctor_is_mkPool`, `lazy_pool_is_default_ctor`, `run_counters_are_translated` / `run_branch_is_translated` / `run_spawn_limit_is_translated` / `run_retire_clock_is_translated` (counter arithmetic and every condition of the if-chain of ThreadPool::run), "
+                 "`join_is_translated`, `join_clear_is_translated`, `abort_is_translated`, `flags_are_translated`, `destructor_is_translated`, `set_is_translated`, `result_conversion_is_translated`, `proc_order_is_translated`, `fut_ctor_is_default`, "
+                 "`flags_after_join_translated` (the last sentence of C10 with the translated isFinished()/isAborted()), `size_body_never_underflows` (LockFreeQueue::size against arbitrary concurrent steps).  "
+                 "PropsRestart.lean: `abortReq_is_abort_since_last_start` (the ghost flag equals a scan of the run's event history: last arming / abort() / destruction of the future), `flags_after_join_across_restarts`, "
+                 "`aborted_after_join_means_abort_since_last_start` (isAborted() after join implies an abort() on this object after its LAST start, for any sequence of starts / aborts / joins / destroys / re-starts), `restart_history_witness`."),
+        "note": ("Translated and proved equal to the model step (round 7, regenerated on every run): LockFreeQueue push/pop/size/constructor, FastSignal set/reset/wait, ThreadPool constructor, the counter arithmetic and branch conditions of ThreadPool::run, Future<void> constructor/destructor/join/abort/isAborting/isFinished/isAborted/set, Future<A> conversion/destructor (its other members are checked to be plain forwards), the action order of the two proc templates.  "
+                 "The translator's own assumptions: usize/ssize as Nat/Int without wrap-around, `x & _capacityMask` as `&&&` (= `%` for the power-of-two capacity, proved), node->head = (usize)-1 as `none`, a destructor call of the trivially destructible Job is no memory access, Atomic::* with their documented meaning, the ghost logs are not produced by the code.  "
+                 "HAND-translated and only tied by the step-by-step replay: the control skeleton of ThreadPool::run (push loop, spawn / retire branches under the mutex, purge of the context list), the worker loop ThreadContext::proc, ~ThreadPool, startProc (lazy pool under the spin lock), Signal.cpp; "
+                 "sequentially consistent atomics; the "
                  "simulated POSIX semantics (mutex, condition variable with spurious wake-ups, create/join, virtual clock) is an assumption shared by scheduler and model; scheduling "
                  "points of the implementation run are atomic operations and pthread calls only (plain volatile reads are not separately interleaved in the run, they are in the "
                  "theorems); usize wrap-around outside.  Nothing OPEN: `join_eventually` (every weakly fair run reaches a state where every thread has finished and every call was executed and freed exactly once), `fair_runs_terminate`, `progresses_wf`, `no_stuck`, `terminal_state_is_complete` are proved on the FULL model of the repaired code; the scheduler verdict, the exhaustive model exploration of small configurations and the random model walks are additional tests.  The model mirrors the REPAIRED code "
                  "(fixes/future/0001-0005, fixes/sync/0001); on the unrepaired tree the check reports the defects with concrete failing schedules.  Round 3: failing Thread::start: XReach is exact up to the join loop of ~ThreadPool (tail replayed by the driver, OPEN as a theorem); "
-                 "the liveness theorems assume that thread creation succeeds (shown false otherwise); the _threadCount leak of the failing branch is repaired by fixes/future/0006 (error path outside C10's quantifier; runs without a refused creation are byte-identical); the driver follows whichever failure branch the library shows in the trace; safety with refused creations is proved for the original branch only, the repaired branch is replayed; Call.hpp: generic capture model for all arities, pool model = Args2 instance."),
+                 "the liveness theorems assume that thread creation succeeds (shown false otherwise); the _threadCount leak of the failing branch is repaired by fixes/future/0006 (error path outside C10's quantifier; runs without a refused creation are byte-identical); the driver follows whichever failure branch the library shows in the trace; safety with refused creations is proved for the original branch only, the repaired branch is replayed; Call.hpp: generic capture model for all arities, pool model = Args2 instance.  Round 7: Framework::~Framework (static destruction of the lazily created pool) is run by the harness under the scheduler (model frame mDel); LockFreeQueue::size is translated and proved not to underflow but is not used by the pool."),
         "design_ref": "DESIGN.md 3/C10",
     }
 }
@@ -736,6 +748,7 @@ ASSUMPTIONS = [
     "LIVENESS theorems (no_stuck, join_eventually, terminate_jobs_balance ...) assume that thread creation succeeds; with a failing Thread::start (environment choice of the extended system XReach, SpawnFail.lean, run on the real code with request option cf) the SAFETY theorems still hold (PropsSpawnFail.lean) and the liveness clause is false (kernel-checked witnesses: join() never returns when no worker can be created; ~ThreadPool waits forever because _threadCount is not decremented when the start fails); allocation succeeds",
     "Call.hpp is abstracted: a call record is two integer arguments and a fixed body a*100+b (Args2); the other arities (Args0..5, Member Args0..4) with by-value capture are run on the real code by the harness request `arity` (tie only)",
     "the result object of Future<A> is a tracked non-trivial type in the harness (store into / read of a destroyed instance is a violation); in the model its lifetime is the program counter destroyF (theorem result_store_before_destroy)",
+    "tie by translation (tools/gen_future.py): C++ subset semantics of the translator — usize/ssize as Nat/Int (no wrap-around), mask arithmetic on a power-of-two capacity, (usize)-1 in node->head as `none`, the destructor of the trivially destructible Job as no access, Atomic::compareAndSwap/swap/testAndSet/increment/load with their documented meaning, one micro-step per shared access with the thread-local run-on after it",
     "liveness under weak fairness is not decided by schedules of bounded length: the scheduler verdict is deadlock (no enabled thread) or step bound; usize ticket wrap-around at 2^64 is outside the model",
 ]
 
@@ -920,6 +933,7 @@ def arity_stream(ctx, exe, stats):
 
 OPEN_STATEMENTS = ["PropsSpawnFail.lean: safety theorems with refused thread creations are proved for the ORIGINAL failure branch (XReach ⊆ Reach); the REPAIRED branch (fixes/future/0006, XReachFix) is modelled, replayed and kernel-evaluated on three runs, its safety is not transferred (runs leave Reach while _threadCount is transiently too high; needs the handler pcs in Frame)",
                    "PropsSpawnFail.lean: worker steps after the tail rule of the original branch fired (the rule itself is proved safety-neutral); positive liveness (join_eventually under 'a worker exists or a creation eventually succeeds'): only finite progress is proved",
+                   "PropsGen.lean: NOT translated (hand translation, tied by the replay only): the control skeleton of ThreadPool::run, ThreadContext::proc, ~ThreadPool, startProc, Signal.cpp; the translated bodies are proved equal to the model steps, the C++ subset semantics of the translator is an assumption",
                    "PropsCall.lean: the pool model carries the Args2 instance of the generic capture record (CallModel.lean, all arities); the header -> CallModel translation is tied by the harness request `arity`"]      # join_eventually is proved outright (Props.lean) since round 2 / fix 0005
 
 
